@@ -36,6 +36,12 @@ func newCorrCtx(id, tier string, seed uint64, outdir string) (*corrCtx, error) {
 
 func (c *corrCtx) thorough() bool { return c.tier == "thorough" }
 
+// mark records the case about to be run, so that if the library kills the process (a panic in
+// one of its worker goroutines, an out-of-memory kill) the check can name the input.
+func (c *corrCtx) mark(desc string) {
+	_ = os.WriteFile(filepath.Join(c.outdir, "current_case.txt"), []byte(desc), 0o644)
+}
+
 // emit records one case: the op line for the model and the implementation's answer.
 // class names the generator branch (for the distribution in the evidence).
 func (c *corrCtx) emit(class, op, implOut string) {
